@@ -400,13 +400,35 @@ func c20Codes(p *core.Prog, r *core.Report) {
 			if c, isC := core.IsCall(i, "NewWrappedSystemError"); isC {
 				arg := core.CallArgs(c)[0]
 				if phi, isPhi := arg.(*ssa.Phi); isPhi {
-					hasNet := false
-					for _, e := range phi.Edges {
-						if k, isK := core.ConstInt(e); isK && d.Of(k) == d.OfName("ErrCodeNetwork") {
-							hasNet = true
+					// every constant the code can take is Network; the only
+					// other source is the code of a received SystemError
+					hasNet, onlyNet := false, true
+					var walk func(v ssa.Value, d2 int)
+					walk = func(v ssa.Value, d2 int) {
+						if d2 > 6 {
+							onlyNet = false
+							return
+						}
+						if k, isK := core.ConstInt(v); isK {
+							if d.Of(k) == d.OfName("ErrCodeNetwork") {
+								hasNet = true
+							} else {
+								onlyNet = false
+							}
+							return
+						}
+						if ph, isP := v.(*ssa.Phi); isP {
+							for _, e := range ph.Edges {
+								walk(e, d2+1)
+							}
+							return
+						}
+						if callResult(v, "SystemError.Code") == nil {
+							onlyNet = false
 						}
 					}
-					ok = hasNet
+					walk(phi, 0)
+					ok = hasNet && onlyNet
 				}
 				if k, isK := core.ConstInt(arg); isK && d.Of(k) == d.OfName("ErrCodeNetwork") {
 					ok = true
@@ -417,7 +439,70 @@ func c20Codes(p *core.Prog, r *core.Report) {
 	}
 }
 
+// relayReasonCodes: the code carried by the error frame a relay sends for each
+// of its own failure reasons (the reason is the metrics string given to
+// RelayCall.Failed next to the frame; the codes are the documented ones: a
+// destination that cannot be reached is a network error - callers retry it -,
+// refusals are declined, the relay's own timer is a timeout).
+var relayReasonCodes = map[string]string{
+	"relay-bad-relay-host":       "ErrCodeDeclined",
+	"relay-connection-failed":    "ErrCodeNetwork",
+	"relay-client-conn-inactive": "ErrCodeDeclined",
+	"relay-remote-inactive":      "ErrCodeDeclined",
+	"timeout":                    "ErrCodeTimeout",
+}
+
+func c20RelayCodes(p *core.Prog, r *core.Report) {
+	d := p.NewDomain("", "SystemErrCode")
+	codeOf := func(v ssa.Value) string {
+		v = core.Strip(v)
+		for name, code := range sentinelCodes {
+			if loadsGlobal(v, name) {
+				return code
+			}
+		}
+		if c := callResult(v, "NewWrappedSystemError", "NewSystemError"); c != nil {
+			if k, isK := core.ConstInt(c.Call.Args[0]); isK {
+				for _, n := range []string{"ErrCodeTimeout", "ErrCodeCancelled", "ErrCodeBusy", "ErrCodeDeclined", "ErrCodeUnexpected", "ErrCodeBadRequest", "ErrCodeNetwork", "ErrCodeProtocol"} {
+					if d.Of(k) == d.OfName(n) {
+						return n
+					}
+				}
+			}
+		}
+		return "a raw error (sent as ErrCodeUnexpected)"
+	}
+	n := 0
+	for _, f := range p.SrcFuncs {
+		if pkgOf(f) != core.Root || !strings.Contains(fname(f), "Relayer)") {
+			continue
+		}
+		for _, snd := range core.CallsIn(f, "Connection.SendSystemError") {
+			// the reason given to RelayCall.Failed in the same block
+			reason := ""
+			for _, j := range snd.Block().Instrs {
+				if c, ok := isRelayCallMethod(j, "Failed"); ok {
+					if k, isK := c.Common().Args[0].(*ssa.Const); isK && k.Value != nil {
+						reason = strings.Trim(k.Value.ExactString(), "\"")
+					}
+				}
+			}
+			want, known := relayReasonCodes[reason]
+			if !known {
+				continue
+			}
+			n++
+			got := codeOf(core.CallArgs(snd)[3])
+			r.Check(got == want, "C20-R3", fname(f), "relay failure '"+reason+"' is sent as "+want, p.Pos(snd.Pos()), "error frame code "+got, "the relay's error frame for '"+reason+"' carries "+got+" instead of "+want)
+		}
+	}
+	if n < 4 {
+		r.Errorf("relay-originated error frames: found %d of the documented failure sites (expected at least 4)", n)
+	}
+}
+
 func c20Protocol(p *core.Prog, r *core.Report) {
+	c20RelayCodes(p, r)
 	d := p.NewDomain("", "SystemErrCode")
 	if f := mustFunc(p, r, "", "Connection", "handleError"); f != nil {
 		ok := false
